@@ -146,6 +146,10 @@ func (p *c17) directed(c fw.Case, cs *caseState) {
 			{segs: []seg{{text: "quotes \" and \\ outside "}, {expr: call("LEN", tN, name())}, {text: " \"end\""}}},
 			{segs: []seg{{expr: bin("+", num("1"), num("2"))}, {expr: bin("&", str("a"), str("b"))}, {text: "\n"}, {expr: bin("<", num("1"), num("2"))}}},
 			{segs: []seg{{text: "@@"}, {expr: bin("+", num("1"), num("2"))}, {text: "@@"}}},
+			// @(reference) directly followed by text that could continue an identifier
+			{segs: []seg{{expr: refNode("contact", tT)}, {text: "bob"}}},
+			{segs: []seg{{text: "Dear "}, {expr: refNode("contact.name", tT)}, {text: ".pdf is attached, "}, {expr: refNode("contact.age", tN)}, {text: "kg"}}},
+			{segs: []seg{{expr: refNode("contact.name", tT)}, {text: ", "}, {expr: refNode("contact.age", tN)}, {text: " kg"}}},
 			{segs: []seg{{expr: refNode("contact", tT), ident: true}, {text: " "}, {expr: refNode("step", tT), ident: true}, {text: " "}, {expr: refNode("parent.contact.name", tT), ident: true}, {text: " "}, {expr: refNode("child.contact.nick", tT), ident: true}}},
 			{segs: []seg{{expr: refNode("child.score", tN), ident: true}, {text: " "}, {expr: refNode("parent.level.value", tN), ident: true}, {text: " "}, {expr: refNode("extra.flow.level", tN), ident: true}, {text: " "}, {expr: refNode("step.contact.age", tN), ident: true}, {text: " "}, {expr: refNode("extra.addr.city", tT), ident: true}}},
 		}
